@@ -392,4 +392,24 @@ theorem path_shape (hs : Hashes) (seed : Bytes) (coin a c i : Nat) (hc : coin < 
             simp only
             cases ckdPriv hs k4 i <;> rfl
 
+/-! ### non-vacuity -/
+
+/-- toy hash for concrete instances (the theorems hold for every hash) -/
+def toyH : Bytes → Bytes := fun x => [(x.foldl (· + ·) 0 * 37 + x.length) % 256, 1, 2, 3, 4]
+
+/-- a concrete 16-byte entropy round-trips through 12 indices, and a mnemonic with a wrong last index fails -/
+example : indicesToEntropy toyH (entropyToIndices toyH [0, 1, 2, 3, 4, 5, 6, 7, 8, 9, 10, 11, 12, 13, 14, 255])
+    = some [0, 1, 2, 3, 4, 5, 6, 7, 8, 9, 10, 11, 12, 13, 14, 255] := by decide +kernel
+example : (entropyToIndices toyH [0, 1, 2, 3, 4, 5, 6, 7, 8, 9, 10, 11, 12, 13, 14, 255]).length = 12 := by decide +kernel
+example : indicesToEntropy toyH [0, 0, 0, 0, 0, 0, 0, 0, 0, 0, 0, 2] = none := by decide +kernel
+def toyHashes : Hashes := { hmac := fun k m => (List.range 64).map fun i => (k.length + m.length + i * 7) % 256,
+                            h160 := fun b => (b.take 20), dsha := fun b => [b.length % 256, 9, 8, 7, 6] }
+
+/-- a well-formed extended key exists and round-trips (instance of `serialize_roundtrip`) -/
+def toyKey : XKey := { priv := true, depth := 3, parentFP := [1, 2, 3, 4], childNum := 2 ^ 31 + 5,
+                       chainCode := List.replicate 32 7, key := toBE32 12345 }
+example : deserialize toyHashes okPrivKey okPubKey true (serialize toyHashes toyKey) = .ok toyKey := by decide +kernel
+example : ckdPub toyHashes (neuter toyKey) (2 ^ 31) = .err (E "ErrHardenedChildPublicKey") := by decide +kernel
+example : ckdPriv toyHashes { toyKey with depth := 255 } 0 = .err (E "ErrMaxDepthReached") := by decide +kernel
+
 end Sky.Props.C16
